@@ -56,26 +56,45 @@ void module_depends(const char *name, ...)
 }
 void module_close_all(void) {}
 
-/* --- timer accounting (linked with -Wl,--wrap=event_new,--wrap=event_free) -------- */
+/* --- timer accounting (linked with -Wl,--wrap=event_new,--wrap=event_free,--wrap=event_base_once) ----
+ * A timer belongs to the client whose announcement line was being fed when it was created (the k-th
+ * announcement of that id), so nothing here depends on the layout of struct iauth_request or on
+ * what the code passes as the callback argument. */
 struct event *__real_event_new(struct event_base *, evutil_socket_t, short, event_callback_fn, void *);
 void __real_event_free(struct event *);
 #define MAX_TIMERS 65536
-static struct { struct event *ev; void *req; int client; } timers[MAX_TIMERS]; /* in creation order */
+static struct { struct event *ev; int client; int ann; int known; } timers[MAX_TIMERS]; /* in creation order */
 static int n_timers;
+static int feeding_known, feeding_client;   /* the `in` op being fed is one line `<id> C ...` */
+#define MAX_ANN 1024
+static struct { int client, n; } anns[MAX_ANN];
+static int n_anns;
 
-struct event *__wrap_event_new(struct event_base *b, evutil_socket_t fd, short ev, event_callback_fn cb, void *arg)
+static int ann_count(int client)
 {
-    struct event *e = __real_event_new(b, fd, ev, cb, arg);
-    if (e && fd == -1 && ev == 0 && n_timers < MAX_TIMERS) {
-        /* evtimer_new(ev_base, iauth_timeout, req): req->client is already set */
-        timers[n_timers].ev = e;
-        timers[n_timers].req = arg;
-        timers[n_timers].client = arg ? ((struct iauth_request *)arg)->client : 0;
-        n_timers++;
-    }
-    return e;
+    int i;
+    for (i = 0; i < n_anns; i++) if (anns[i].client == client) return anns[i].n;
+    return 0;
 }
-void __wrap_event_free(struct event *e)
+static void ann_bump(int client)
+{
+    int i;
+    for (i = 0; i < n_anns; i++) if (anns[i].client == client) { anns[i].n++; return; }
+    if (n_anns < MAX_ANN) { anns[n_anns].client = client; anns[n_anns].n = 1; n_anns++; }
+}
+static void timer_note(struct event *e)
+{
+    if (n_timers >= MAX_TIMERS) return;
+    /* an announcement that the daemon accepts (and that has a timeout to arm) creates the timer of a
+     * new instance of that id; lines it ignores (`5 C 1.2.3.4`) create nothing and count for nothing */
+    if (feeding_known) ann_bump(feeding_client);
+    timers[n_timers].ev = e;
+    timers[n_timers].known = feeding_known;
+    timers[n_timers].client = feeding_client;
+    timers[n_timers].ann = feeding_known ? ann_count(feeding_client) : 0;
+    n_timers++;
+}
+static void timer_forget(struct event *e)
 {
     int i;
     for (i = 0; i < n_timers; i++)
@@ -84,7 +103,51 @@ void __wrap_event_free(struct event *e)
             n_timers--;
             break;
         }
+}
+/* does this timer belong to the request that is live for its id now? */
+static int timer_current(int k)
+{
+    return timers[k].known && iauth_find_request(timers[k].client) != NULL
+        && timers[k].ann == ann_count(timers[k].client);
+}
+
+struct event *__wrap_event_new(struct event_base *b, evutil_socket_t fd, short ev, event_callback_fn cb, void *arg)
+{
+    struct event *e = __real_event_new(b, fd, ev, cb, arg);
+    if (e && fd == -1 && ev == 0)
+        timer_note(e);
+    return e;
+}
+void __wrap_event_free(struct event *e)
+{
+    timer_forget(e);
     __real_event_free(e);
+}
+/* event_base_once with a pure timeout: the same thing as a self-freeing timer event */
+struct once_rec { struct event *ev; event_callback_fn cb; void *arg; };
+static void once_trampoline(evutil_socket_t fd, short what, void *p)
+{
+    struct once_rec *o = p;
+    event_callback_fn cb = o->cb;
+    void *arg = o->arg;
+    timer_forget(o->ev);
+    __real_event_free(o->ev);
+    free(o);
+    cb(fd, what, arg);
+}
+int __real_event_base_once(struct event_base *, evutil_socket_t, short, event_callback_fn, void *, const struct timeval *);
+int __wrap_event_base_once(struct event_base *b, evutil_socket_t fd, short what, event_callback_fn cb, void *arg,
+                           const struct timeval *tv)
+{
+    struct once_rec *o;
+    if (fd != -1 || what != EV_TIMEOUT || !tv)
+        return __real_event_base_once(b, fd, what, cb, arg, tv);
+    o = malloc(sizeof(*o));
+    o->cb = cb; o->arg = arg;
+    o->ev = __real_event_new(b, -1, 0, once_trampoline, o);
+    if (!o->ev) { free(o); return -1; }
+    timer_note(o->ev);
+    return event_add(o->ev, tv);
 }
 
 /* --- plumbing ------------------------------------------------------------------- */
@@ -337,6 +400,17 @@ static void run_case(char **lines, int n)
             char *data = tr_resolve(raw ? raw : "", raw ? rawlen : 0, &len);
             free(raw);
             tr_fed(data, len);
+            {   /* one whole line `<id> C ...`: timers created while it is handled belong to that id */
+                long long idv;
+                size_t sp = 0;
+                feeding_known = 0;
+                while (sp < len && data[sp] != ' ' && data[sp] != '\n') sp++;
+                if (len && data[len - 1] == '\n' && !memchr(data, '\n', len - 1) && sp + 2 < len && data[sp] == ' '
+                    && data[sp + 1] == 'C' && tr_decimal(data, sp, &idv)) {
+                    feeding_known = 1;
+                    feeding_client = tr_wrap32(idv);
+                }
+            }
             fprintf(rec, "");
             /* one write per op unless the chunk exceeds what the pipe takes at once */
             while (off < len) {
@@ -347,38 +421,40 @@ static void run_case(char **lines, int n)
                 turn_loop_until_drained();
             }
             if (len == 0) turn_loop_until_drained();
+            feeding_known = 0;
             free(data);
             emit_out();
             fprintf(rec, "\n");
         } else if (!strcmp(fv[0], "timeout") && nf >= 2) {
-            struct iauth_request *req = iauth_find_request(atoi(fv[1]));
-            int fired = 0;
-            if (req && req->timeout && event_pending(req->timeout, EV_TIMEOUT, NULL)) {
-                event_active(req->timeout, EV_TIMEOUT, 0);
-                event_base_loop(ev_base, EVLOOP_NONBLOCK);
-                fired = 1;
-            }
+            int want = atoi(fv[1]), fired = 0, k;
+            /* the pending timer of the request that is live for this id */
+            for (k = n_timers - 1; k >= 0; k--)
+                if (timers[k].known && timers[k].client == want && timer_current(k)
+                    && event_pending(timers[k].ev, EV_TIMEOUT, NULL)) {
+                    event_active(timers[k].ev, EV_TIMEOUT, 0);
+                    event_base_loop(ev_base, EVLOOP_NONBLOCK);
+                    fired = 1;
+                    break;
+                }
             emit_out();
             fprintf(rec, " %s\n", fired ? "fired" : "no-timer");
         } else if (!strcmp(fv[0], "elapse")) {
             /* real time passes beyond the configured timeout: every pending timer fires, oldest
              * first; a timer whose request is no longer the live one for its id is an orphan */
             struct event *snap[256];
-            void *sreq[256];
-            int sclient[256], ns = 0, k;
+            int ns = 0, k;
             char fired[4096];
             size_t fl = 0;
             for (k = 0; k < n_timers && ns < 256; k++)
-                if (event_pending(timers[k].ev, EV_TIMEOUT, NULL)) {
-                    snap[ns] = timers[k].ev; sreq[ns] = timers[k].req; sclient[ns] = timers[k].client; ns++;
-                }
+                if (event_pending(timers[k].ev, EV_TIMEOUT, NULL))
+                    snap[ns++] = timers[k].ev;
             fired[0] = '\0';
             for (k = 0; k < ns; k++) {
-                int j, still = 0;
-                for (j = 0; j < n_timers; j++) if (timers[j].ev == snap[k]) still = 1;
-                if (!still || !event_pending(snap[k], EV_TIMEOUT, NULL)) continue;
-                if ((void *)iauth_find_request(sclient[k]) == sreq[k])
-                    fl += (size_t)snprintf(fired + fl, sizeof(fired) - fl, "%s%d", fl ? "," : "", sclient[k]);
+                int j, at = -1;
+                for (j = 0; j < n_timers; j++) if (timers[j].ev == snap[k]) at = j;
+                if (at < 0 || !event_pending(snap[k], EV_TIMEOUT, NULL)) continue;
+                if (timer_current(at))
+                    fl += (size_t)snprintf(fired + fl, sizeof(fired) - fl, "%s%d", fl ? "," : "", timers[at].client);
                 else
                     fl += (size_t)snprintf(fired + fl, sizeof(fired) - fl, "%sorphan", fl ? "," : "");
                 event_active(snap[k], EV_TIMEOUT, 0);
